@@ -111,3 +111,23 @@ func VerifC16FlushStep() {
 	v.Assert("restart-within-100", h.nextIndex()-h2.nextIndex() < 100)
 	v.Reach("end")
 }
+
+// VerifC16ResetRestart: after a reset to an arbitrary (concrete, case-split) index
+// followed by k records, a restart on the same store resumes at most 100 behind.
+func VerifC16ResetRestart() {
+	store := kv.NewMemoryKV()
+	h := newHistoryBuffer(3, store)
+	pre := v.Choice("recordsBefore", 3) * 60
+	for i := 0; i < pre; i++ {
+		h.Record(core.NewRegionInfo(&metapb.Region{Id: uint64(i)}, nil))
+	}
+	targets := []uint64{0, 50, 100, 101, 5000, 1 << 40}
+	h.ResetWithIndex(targets[v.Choice("target", len(targets))])
+	k := v.Choice("recordsAfter", 4) * 40 // 0, 40, 80, 120
+	for i := 0; i < k; i++ {
+		h.Record(core.NewRegionInfo(&metapb.Region{Id: uint64(i)}, nil))
+	}
+	h2 := newHistoryBuffer(3, store)
+	v.Assert("restart-after-reset-within-100", h.nextIndex()-h2.nextIndex() <= 100)
+	v.Reach("end")
+}
